@@ -55,12 +55,29 @@ package stream
 // attrSafe(s): s can stand inside a single-quoted attribute value as is.
 //@ spec attrSafe(s string) bool = forall i int :: 0 <= i && i < len(s) ==> s[i] != '\'' && s[i] != '<' && s[i] != '&'
 
+//@ spec attrSafeButQuote(s string) bool = forall i int :: 0 <= i && i < len(s) ==> s[i] != '<' && s[i] != '&'
+
 // Whatever Send formats into the header with fmt must be attribute-safe:
 // variable text (addresses, id, language) has to go through xml.EscapeText.
 //@ func Send
 //@   requires attrSafe(streamData.XMLNS)
 //@   callsite fmt.Fprintf#*
 //@     assert[C12] forall k int :: 0 <= k && k < len(arg2) && typeof(arg2[k]) == string ==> attrSafe(arg2[k].(string))
+
+// writeAttr: only the fixed prefix and the closing quote are written as they
+// are; the value reaches the writer through xml.EscapeText (which escapes the
+// quote characters as well as < and &) and through nothing else.
+//@ func writeAttr
+//@   requires attrSafeButQuote(prefix)
+//@   ghost escaped bool = false
+//@   callsite (*bufio.Writer).WriteString#*
+//@     assert[C12] arg1 == prefix
+//@   callsite encoding/xml.EscapeText#1
+//@     assert[C12] len(arg1) == len(value) && forall k int :: 0 <= k && k < len(value) ==> arg1[k] == value[k]
+//@     after: escaped = ret0 == nil
+//@   callsite (*bufio.Writer).WriteByte#1
+//@     assert[C12] arg1 == '\'' && escaped
+//@   ensures[C12] result == nil ==> escaped
 
 // An incoming header is accepted (nil error) only if it is the open element
 // of the framing in use, declares version 1.0, a supported content namespace
